@@ -843,7 +843,7 @@ class InClass:
                         k = v.get(sort)
                     else:
                         k = getattr(v, sort, None)
-                    if not basic_type(type(k)):
+                    if not basic_type(type(k)) and callable(k):
                         try:
                             k = k()
                         except Exception:
